@@ -203,13 +203,14 @@ fn flip(c: char) -> char {
 pub fn confusable(r: &mut Rng, c: char) -> char {
     if c.is_ascii_digit() {
         // Arabic-Indic, fullwidth, superscript, vulgar fraction, Roman numeral, Devanagari, NKo
-        *r.pick(&['\u{0663}', '\u{ff11}', '\u{00b2}', '\u{00bd}', '\u{2167}', '\u{0966}', '\u{07c1}'])
+        // (the last one: a letter whose low byte is the digit itself)
+        *r.pick(&['\u{0663}', '\u{ff11}', '\u{00b2}', '\u{00bd}', '\u{2167}', '\u{0966}', '\u{07c1}', char::from_u32(0x0100 + c as u32).unwrap_or('\u{0131}')])
     } else if c.is_ascii_uppercase() {
         // fullwidth A, Cyrillic A, Kelvin sign, Greek Alpha, dotted capital I
-        *r.pick(&['\u{ff21}', '\u{0410}', '\u{212a}', '\u{0391}', '\u{0130}'])
+        *r.pick(&['\u{ff21}', '\u{0410}', '\u{212a}', '\u{0391}', '\u{0130}', char::from_u32(0x0100 + c as u32).unwrap_or('\u{0141}')])
     } else {
         // Cyrillic a, fullwidth a, dotless i, long s, sharp s, Greek omicron
-        *r.pick(&['\u{0430}', '\u{ff41}', '\u{0131}', '\u{017f}', '\u{00df}', '\u{03bf}'])
+        *r.pick(&['\u{0430}', '\u{ff41}', '\u{0131}', '\u{017f}', '\u{00df}', '\u{03bf}', char::from_u32(0x0100 + c as u32).unwrap_or('\u{0161}')])
     }
 }
 
